@@ -14,6 +14,16 @@
 3. Fixed regression schedules (the counterexamples TLC found) and a sweep of
    signature-binding variants are replayed.
 4. The converse direction: real clients with valid credentials are admitted.
+5. "The restrictions attached to the accepted credential are the ones
+   enforced afterwards": specs/Auth/Restrict.tla is the decision table
+   (credential kind x authorized_keys options incl. restrict / no-* / permit
+   words / command= / permitopen / from= / principals= x certificate
+   extensions incl. the empty set / force-command / source-address /
+   validity) -> which of pty, agent, X11, direct-tcpip, tcpip-forward, UNIX
+   forwards, and which command, are allowed; TLC checks 13 invariants over
+   the table and rejects four wrong-rule variants; every row is replayed
+   against a real server with real keys and certificates
+   (checks/c05_restrict.py).
 """
 
 import os
@@ -259,6 +269,10 @@ def main(ctx):
                           f'client with valid credential not admitted: '
                           f'{case}: {detail}',
                           replay={'kind': 'admitted', 'case': case})
+
+    # ---- 5. restrictions of the accepted credential (specs/Auth/Restrict.tla)
+    from checks import c05_restrict
+    c05_restrict.run(ctx, ctx.tier == 'quick')
 
     ctx.assumptions += [
         'application validators are truthful functions of (user, credential)',
